@@ -412,6 +412,22 @@ impl BoundsAnalyzer {
         }
     }
 
+    /// Replaces the derived range of every variable with the range its domain
+    /// actually carries after `apply_to_domain`. A Boolean domain cannot store a
+    /// tightened range and an integer domain keeps its declaration when the
+    /// derived interval holds no integer, so for those the derived range is not
+    /// enforced by the compiled model and must not be assumed by later rewrites.
+    pub(crate) fn restrict_to_domain(&mut self, domain: &IndexMap<String, DomainVariable>) {
+        for (name, variable) in domain {
+            if self.variable_bounds.contains_key(name) {
+                self.variable_bounds.insert(
+                    name.clone(),
+                    Bounds::from_variable_type(variable.get_type()),
+                );
+            }
+        }
+    }
+
     fn propagate_affine_constraints(&mut self, constraints: &[Constraint], max_steps: usize) {
         let forms = constraints
             .iter()
